@@ -1,6 +1,11 @@
 use bytes::Bytes;
 use crossbeam_epoch::{self as epoch, Atomic, Guard, Owned, Shared};
 use std::mem;
+#[cfg(feoxdb_verif)]
+use crate::verif::atomics::AtomicU32;
+#[cfg(feoxdb_verif)]
+use std::sync::atomic::{AtomicBool, AtomicU64, Ordering};
+#[cfg(not(feoxdb_verif))]
 use std::sync::atomic::{AtomicBool, AtomicU32, AtomicU64, Ordering};
 use std::sync::{Arc, OnceLock, Weak};
 
